@@ -51,7 +51,8 @@ type negoScn struct {
 	// 2 server requests one and the client presents it
 	ClientAuth int `json:"client_auth"`
 	// Resume: the scenario's connection is preceded by a compliant TLS 1.2 connection sharing the session cache
-	Resume bool `json:"resume"`
+	Resume    bool `json:"resume"`
+	ResumeVer int  `json:"resume_ver"` // 772: the prior connection is a TLS 1.3 one
 	// NoReneg: use the parrot's spec as a custom spec with renegotiation support switched off (same wire image);
 	// ExportKeyingMaterial is unavailable on connections that allow renegotiation
 	NoReneg bool `json:"no_reneg"`
@@ -62,6 +63,13 @@ type negoScn struct {
 	// Edit: an edit of uconn.Extensions between an explicit BuildHandshakeState and Handshake ("alpn-http11": the ALPN
 	// list is cut down to http/1.1; "groups-drop-last": the last supported group is removed)
 	Edit string `json:"edit"`
+	// SigAlgsCert: custom spec with a signature_algorithms_cert extension (PKCS#1 v1.5 + ECDSA) right after
+	// signature_algorithms; SVList: custom spec whose supported_versions lists exactly these versions (a GREASE entry is
+	// kept) while TLSVersMin/TLSVersMax stay as the parrot has them; RandFE0D: after an explicit build the client random
+	// is set to a value that contains the bytes fe 0d (the code point of encrypted_client_hello)
+	SigAlgsCert bool  `json:"sigalgs_cert"`
+	SVList      []int `json:"sv_list"`
+	RandFE0D    bool  `json:"rand_fe0d"`
 	// GroupsFirst: the parrot's spec as a custom spec with this group moved to the front of supported_groups (after a
 	// GREASE entry); SrvGroups: the server's whole CurvePreferences list (instead of the single scenario group)
 	GroupsFirst int   `json:"groups_first"`
@@ -341,7 +349,12 @@ func runNego(s negoScn, rawScn json.RawMessage, pk *hlib.PKI, certs map[string]t
 		var key [32]byte
 		copy(key[:], "verif-ticket-key-verif-ticket-key")
 		scfg.SetSessionTicketKeys([][32]byte{key})
-		first := &tls.Config{Certificates: scfg.Certificates, MinVersion: tls.VersionTLS12, MaxVersion: tls.VersionTLS12,
+		fv := uint16(tls.VersionTLS12)
+		if s.ResumeVer == 772 {
+			// ... or a TLS 1.3 connection, whose NewSessionTicket the client reads with its first application data
+			fv = tls.VersionTLS13
+		}
+		first := &tls.Config{Certificates: scfg.Certificates, MinVersion: fv, MaxVersion: fv,
 			CipherSuites: scfg.CipherSuites, CurvePreferences: scfg.CurvePreferences, NextProtos: scfg.NextProtos}
 		first.SetSessionTicketKeys([][32]byte{key})
 		r1 := hlib.RunHandshake(ccfg.Clone(), first, id, hlib.HSOpts{Timeout: 5 * time.Second, Echo: []int{3}})
@@ -390,7 +403,7 @@ func runNego(s negoScn, rawScn json.RawMessage, pk *hlib.PKI, certs map[string]t
 	}
 	nch := 0
 	runID := id
-	if s.NoReneg || s.KSReverse || s.FPCopy || len(s.ExtraExts) > 0 || len(s.KSList) > 0 || s.GroupsFirst != 0 {
+	if s.NoReneg || s.KSReverse || s.FPCopy || len(s.ExtraExts) > 0 || len(s.KSList) > 0 || s.GroupsFirst != 0 || s.SigAlgsCert || len(s.SVList) > 0 {
 		runID = tls.HelloCustom
 	}
 	r := hlib.RunHandshake(ccfg, scfg, runID, hlib.HSOpts{Timeout: 5 * time.Second, Echo: echo, EKM: ekm, OnClientWrite: func(b []byte) {
@@ -426,10 +439,20 @@ func runNego(s negoScn, rawScn json.RawMessage, pk *hlib.PKI, certs map[string]t
 			}
 			return u.ApplyPreset(spec)
 		}
-		if s.NoReneg || s.KSReverse || len(s.ExtraExts) > 0 || len(s.KSList) > 0 || s.GroupsFirst != 0 {
+		if s.NoReneg || s.KSReverse || len(s.ExtraExts) > 0 || len(s.KSList) > 0 || s.GroupsFirst != 0 || s.SigAlgsCert || len(s.SVList) > 0 {
 			spec, err := tls.UTLSIdToSpec(id)
 			if err != nil {
 				return err
+			}
+			if s.SigAlgsCert {
+				for i, e := range spec.Extensions {
+					if _, ok := e.(*tls.SignatureAlgorithmsExtension); ok {
+						sc := &tls.SignatureAlgorithmsCertExtension{SupportedSignatureAlgorithms: []tls.SignatureScheme{
+							tls.PKCS1WithSHA256, tls.PKCS1WithSHA384, tls.ECDSAWithP256AndSHA256, tls.PKCS1WithSHA512}}
+						spec.Extensions = append(append(append([]tls.TLSExtension{}, spec.Extensions[:i+1]...), sc), spec.Extensions[i+1:]...)
+						break
+					}
+				}
 			}
 			if len(s.ExtraExts) > 0 {
 				pos := len(spec.Extensions)
@@ -457,6 +480,17 @@ func runNego(s negoScn, rawScn json.RawMessage, pk *hlib.PKI, certs map[string]t
 				spec.Extensions = append(append(append([]tls.TLSExtension{}, spec.Extensions[:pos]...), add...), spec.Extensions[pos:]...)
 			}
 			for _, e := range spec.Extensions {
+				if sv, ok := e.(*tls.SupportedVersionsExtension); ok && len(s.SVList) > 0 {
+					// a custom spec whose supported_versions list is narrower than its TLSVersMin..TLSVersMax range
+					var vs []uint16
+					if len(sv.Versions) > 0 && sv.Versions[0]&0x0f0f == 0x0a0a {
+						vs = append(vs, sv.Versions[0])
+					}
+					for _, v := range s.SVList {
+						vs = append(vs, uint16(v))
+					}
+					sv.Versions = vs
+				}
 				if ri, ok := e.(*tls.RenegotiationInfoExtension); ok && s.NoReneg {
 					ri.Renegotiation = tls.RenegotiateNever
 				}
@@ -491,6 +525,19 @@ func runNego(s negoScn, rawScn json.RawMessage, pk *hlib.PKI, certs map[string]t
 				}
 			}
 			return u.ApplyPreset(&spec)
+		}
+		if s.RandFE0D {
+			if err := u.BuildHandshakeState(); err != nil {
+				return err
+			}
+			r := make([]byte, 32)
+			for i := range r {
+				r[i] = byte(0x30 + i)
+			}
+			r[9], r[10], r[20], r[21] = 0xfe, 0x0d, 0xfe, 0x0d
+			if err := u.SetClientRandom(r); err != nil {
+				return err
+			}
 		}
 		if s.Edit != "" {
 			// the caller builds the hello, edits an extension in uconn.Extensions, then calls Handshake (which
